@@ -357,6 +357,20 @@ type sess struct {
 	hist   []string // entry constructors (model)
 	human  []string // the same, readable: part of every failing input
 	emit   map[string]bool
+	global *[]string // every call of the stage so far (phase 1b appends its own)
+	ncalls int       // how many calls that is
+}
+
+// historyView: the calls made so far as they go into a failing input -- the first
+// few and the most recent ones in full (the panel is judged after every call, so
+// the call that changed a verdict is among the last)
+func historyView(h []string) []string {
+	if len(h) <= 40 {
+		return append([]string(nil), h...)
+	}
+	v := append([]string(nil), h[:8]...)
+	v = append(v, fmt.Sprintf("... %d more calls (same seed, same order on a re-run) ...", len(h)-32))
+	return append(v, h[len(h)-24:]...)
 }
 
 func (r *run) newSess(sf *signedFile, orig []elt) *sess {
@@ -438,7 +452,7 @@ func (s *sess) judge(m smut, emit bool) int {
 	extra := map[string]interface{}{"elements_of_signed_file": eltsHuman(s.gen, s.orig), "elements_of_judged_file": eltsHuman(s.gen, m.els), "signed_portion_as_stored_ends_at": signedEnd, "suite_says": msg}
 	switch {
 	case same && out != oOk:
-		s.r.failHit(idx, fmt.Sprintf("a BPM signed by the suite does not verify with the suite any more (outcome %d: %s) after %d other call(s) in this process", out, msg, len(s.human)), "bootguard.NewBPM/VerifyBPM", s.input(m.name, file, extra))
+		s.r.failHit(idx, fmt.Sprintf("a BPM signed by the suite does not verify with the suite any more (outcome %d: %s) after %d other call(s) in this process", out, msg, s.ncalls), "bootguard.NewBPM/VerifyBPM", s.input(m.name, file, extra))
 	case out != oOk || raw:
 		c.OracleOK()
 		if out != oOk && raw {
@@ -448,7 +462,7 @@ func (s *sess) judge(m smut, emit bool) int {
 		// accepted although the stored signature is not valid for the stored signed portion
 		re := reserialised(1, file)
 		sameAsSigned := re != nil && bytes.Equal(re, s.sf.file)
-		what := fmt.Sprintf("BPM (gen %d) accepted although its signed portion as stored is not what was signed: %s; %d call(s) of other entry points before", s.gen, m.name, len(s.human))
+		what := fmt.Sprintf("BPM (gen %d) accepted although its signed portion as stored is not what was signed: %s; %d call(s) of other entry points before", s.gen, m.name, s.ncalls)
 		switch {
 		case m.onlyUnknownChunksAdded(s.orig) && sameAsSigned:
 			// EXACTLY the open finding: nothing but chunks of StructInfo size with IDs no
@@ -527,11 +541,13 @@ func (s *sess) judgeVia(m smut, km []byte, im *interMat) {
 	file := joinElts(m.els)
 	same := bytes.Equal(file, s.sf.file)
 	raw, signedEnd := bpmRawValid(s.gen, file)
-	for via, name := range map[int]string{1: "NewBPMAndKM", 2: "NewBPMAndKMFromBIOS"} {
-		if via == 2 && len(file) > 0x3000 {
+	for via, name := range []string{"", "NewBPMAndKM", "NewBPMAndKMFromBIOS"} {
+		if via == 0 || via == 2 && len(file) > 0x3000 {
 			continue
 		}
+		s.human, s.ncalls = historyView(*s.global), len(*s.global)
 		out, msg := verifyVia(via, file, km, im)
+		*s.global = append(*s.global, fmt.Sprintf("%s(%s: %s) + VerifyBPM -> outcome %d", name, s.sf.name, m.name, out))
 		c.Count("order/via-" + name)
 		extra := map[string]interface{}{"constructor": name, "key_manifest_hex": hexs(km), "elements_of_signed_file": eltsHuman(s.gen, s.orig), "elements_of_judged_file": eltsHuman(s.gen, m.els), "signed_portion_as_stored_ends_at": signedEnd, "suite_says": msg}
 		switch {
@@ -559,7 +575,7 @@ func (s *sess) judgeBytes(name string, doc int, orig *signedFile, file []byte) {
 	raw := len(file) == len(orig.file) && orig.lay.rawValid(file)
 	switch {
 	case same && out != oOk:
-		s.r.failHit(-1, fmt.Sprintf("a %s signed by the suite does not verify with the suite any more (outcome %d: %s) after %d other call(s) in this process", docName(doc), out, msg, len(s.human)), "bootguard.Verify"+docName(doc), s.input(name, file, map[string]interface{}{"file_signed": orig.name}))
+		s.r.failHit(-1, fmt.Sprintf("a %s signed by the suite does not verify with the suite any more (outcome %d: %s) after %d other call(s) in this process", docName(doc), out, msg, s.ncalls), "bootguard.Verify"+docName(doc), s.input(name, file, map[string]interface{}{"file_signed": orig.name}))
 	case out != oOk || raw:
 		c.OracleOK()
 	default:
@@ -575,7 +591,7 @@ func (s *sess) judgeBytes(name string, doc int, orig *signedFile, file []byte) {
 			s.r.knownHit(-1, fNormalised, "tampered "+docName(doc)+" accepted: a field that Rehash recomputes was changed", "bootguard.Verify"+docName(doc), s.input(name, file, nil))
 			return
 		}
-		s.r.failHit(-1, fmt.Sprintf("tampered %s accepted (%s): the stored signature is not valid for the stored signed portion; %d call(s) of other entry points before", docName(doc), name, len(s.human)), "bootguard.Verify"+docName(doc), s.input(name, file, map[string]interface{}{"file_signed": orig.name, "file_signed_hex": hexs(orig.file)}))
+		s.r.failHit(-1, fmt.Sprintf("tampered %s accepted (%s): the stored signature is not valid for the stored signed portion; %d call(s) of other entry points before", docName(doc), name, s.ncalls), "bootguard.Verify"+docName(doc), s.input(name, file, map[string]interface{}{"file_signed": orig.name, "file_signed_hex": hexs(orig.file)}))
 	}
 }
 
@@ -1055,13 +1071,9 @@ func (r *run) structural() {
 		c.Begin("structural mutants of "+m.sf.name+" through NewBPMAndKM / NewBPMAndKMFromBIOS", "bootguard.NewBPMAndKM/NewBPMAndKMFromBIOS/VerifyBPM", map[string]interface{}{"file_hex": hexs(m.sf.file)})
 		s := r.newSess(m.sf, m.els)
 		muts := append([]smut{{"the signed file itself", m.els}}, structuralMutants(rg, m.sf.gen, m.els, false)...)
+		s.global = &global
 		for _, mu := range muts {
-			s.human = global
 			s.judgeVia(mu, km, im)
-			note := "(judged files also parsed with NewBPMAndKM and NewBPMAndKMFromBIOS)"
-			if len(global) == 0 || global[len(global)-1] != note {
-				global = append(global, note)
-			}
 		}
 	}
 
@@ -1130,7 +1142,7 @@ func (r *run) structural() {
 		}
 		judgeAll := func(emit bool) {
 			for i, s := range subs {
-				s.human = global
+				s.human, s.ncalls = historyView(global), len(global)
 				for _, mu := range panels[i] {
 					s.judge(mu, emit)
 				}
@@ -1191,7 +1203,8 @@ func (r *run) structural() {
 			s := r.newSess(m.sf, m.els)
 			s.cfgOff = true
 			s.c0 = "(tool_conf false lib_default_conf)"
-			s.human = append(append([]string(nil), global...), "(main() of the tool: cbnt.StrictOrderCheck = cli.ManifestStrictOrderCheck, flag not given)")
+			s.ncalls = len(global) + 1
+			s.human = append(historyView(global), "(main() of the tool: cbnt.StrictOrderCheck = cli.ManifestStrictOrderCheck, flag not given)")
 			s.judge(smut{"the signed file itself", m.els}, true)
 			for _, mu := range structuralMutants(rg, m.sf.gen, m.els, false) {
 				s.judge(mu, true)
